@@ -1,7 +1,7 @@
 (* C16/Properties.v -- pinned statements of property C16 (stack use does not grow with the amount
    of data processed), about the frame-counting models of C16/Model.v.
    The theorems count frames of a MODEL: they cannot see the optimiser or frame sizes. *)
-From Sophia.C16 Require Import Model Proofs.
+From Sophia.C16 Require Import Model Proofs VecStore VecStoreProofs PrettyChain PrettyChainProofs.
 
 (* ---- the property on the model ---------------------------------------------------------- *)
 (* with the proposed patches, every operation on every input: at most 4 frames plus the allowance
@@ -101,7 +101,76 @@ Check (nt_doc_depth : forall ts, (depth (nt_doc_c ts) <= 7 + 2 * doc_nesting ts)
 (* the dependence on the nesting is real *)
 Check (nt_term_depth_needs_nesting : forall c : nat, exists t, (depth (nt_term_c t) > c)%nat).
 
+(* ---- the Vec-backed stores (not sets: a statement may be held any number of times) ------------ *)
+(* a history of insert / remove / remove_quad / remove_all / remove_matching / retain_matching /
+   contains on Vec<Gspo<T>> (true) or Vec<Spog<T>>, Vec<[T; 3]> (false): the values returned and
+   the Vec after each operation, and at most 10 frames whatever the number of statements held, the
+   number of copies of any of them and the number of operations *)
+Check (vec_history_erasure : forall g ops v, res (vrun_c g ops v) = vrun_p g ops v).
+Check (vec_history_depth : forall g ops v, (depth (vrun_c g ops v) <= 10)%nat).
+(* Vec<Gspo<T>>::remove takes ONE copy away and tells whether there was one *)
+Check (gspo_remove_spec : forall q v,
+  fst (gspo_remove_p q v) = negb (Nat.eqb (cnt q v) 0) /\
+  forall x, cnt x (snd (gspo_remove_p q v)) = if N.eqb x q then pred (cnt q v) else cnt x v).
+(* Vec<Spog<T>>::remove and Vec<[T; 3]>::remove take EVERY copy away and always answer true *)
+Check (spog_remove_spec : forall q v,
+  fst (spog_remove_p q v) = true /\
+  forall x, cnt x (snd (spog_remove_p q v)) = if N.eqb x q then O else cnt x v).
+(* both flavours: remove_matching leaves no copy of an accepted statement, retain_matching no copy
+   of a rejected one, and neither touches the others *)
+Check (remove_matching_spec : forall g m v x,
+  cnt x (snd (remove_matching_p g m v)) = if m x then O else cnt x v).
+Check (retain_matching_spec : forall g m v x,
+  cnt x (snd (retain_matching_p g m v)) = if m x then cnt x v else O).
+(* the frame count does see a removal written as one self-call per copy (a shape that is not in the code) *)
+Check (every_copy_rec_refuted : forall c : nat, exists q v,
+  (depth (every_copy_rec_c (S (length v)) q v 0) > c)%nat).
+
+(* ---- the pretty Turtle / TriG writer on a chain of blank nodes, under any indentation --------- *)
+(* the recursion write_properties -> write_object -> write_term -> write_bnode -> write_properties
+   is cut by the counter `depth`: a bound without the length of the chain and without the
+   indentation configured (which may be empty) *)
+Check (chain_depth_bounded : forall unit typed n,
+  (depth (chain_doc_c (counter_guard MAX_DEPTH) unit typed n) <= 5 * MAX_DEPTH + 11)%nat).
+(* two indentations: the same brackets, labels and statements *)
+Check (chain_shape_indent_independent : forall u1 u2 typed n,
+  no_newlines (res (chain_doc_c (counter_guard MAX_DEPTH) u1 typed n)) =
+  no_newlines (res (chain_doc_c (counter_guard MAX_DEPTH) u2 typed n))).
+(* a guard deduced from the length of the indentation string never fires under the empty indentation *)
+Check (indent_guard_refuted : forall c : nat, exists n,
+  (depth (chain_doc_c (indent_guard MAX_DEPTH 0) 0 false n) > c)%nat).
+
 (* ---- non-vacuity: concrete depths, original vs patched --------------------------------------- *)
+(* 300 copies of one statement between two others: remove on either flavour, remove_matching, and
+   the self-calling shape *)
+Example ex_vec_copies :
+  let v := 8 :: repeat 7 300 ++ [9] in
+  depth (gspo_remove_c 7 v) = 5%nat /\ cnt 7 (snd (res (gspo_remove_c 7 v))) = 299%nat /\
+  depth (spog_remove_c 7 v) = 3%nat /\ snd (res (spog_remove_c 7 v)) = [8; 9] /\
+  depth (remove_matching_c true (acc_matcher [7]) v) = 10%nat /\
+  res (remove_matching_c true (acc_matcher [7]) v) = (300, [8; 9]) /\
+  depth (every_copy_rec_c 400 7 v 0) = 304%nat.
+Proof. vm_compute. repeat split. Qed.
+(* swap_remove moves the last element into the hole: the order the harness observes *)
+Example ex_vec_order :
+  res (vrun_c true [VInsert 1; VInsert 2; VInsert 1; VInsert 3; VRemove 1; VRemoveAll [1; 1; 2]] []) =
+  [(1, [1]); (1, [1; 2]); (1, [1; 2; 1]); (1, [1; 2; 1; 3]); (1, [3; 2; 1]); (2, [3])].
+Proof. vm_compute. reflexivity. Qed.
+(* a chain of 300 blank nodes: the same depth under an empty and under a two-byte indentation, brackets 63 deep;
+   with the guard deduced from the indentation: the same under two bytes, the whole chain under none *)
+Example ex_chain_depths :
+  depth (chain_doc_c (counter_guard MAX_DEPTH) 0 false 300) = 262%nat /\
+  depth (chain_doc_c (counter_guard MAX_DEPTH) 2 false 300) = 262%nat /\
+  depth (chain_doc_c (counter_guard MAX_DEPTH) 0 true 300) = 326%nat /\
+  max_nesting 0 0 (res (chain_doc_c (counter_guard MAX_DEPTH) 0 false 300)) = 63%nat /\
+  depth (chain_doc_c (indent_guard MAX_DEPTH 2) 2 false 300) = 262%nat /\
+  depth (chain_doc_c (indent_guard MAX_DEPTH 0) 0 false 300) = 1206%nat.
+Proof. vm_compute. repeat split. Qed.
+(* x:s -> b1 -> b2 -> b3 under a two-byte indentation: line feeds with 0, 2, 6, 10 bytes *)
+Example ex_chain_result :
+  map ptok_code (res (chain_doc_c (counter_guard MAX_DEPTH) 2 false 3)) = [5; 9; 0; 17; 0; 25; 2; 1; 1; 3].
+Proof. vm_compute. reflexivity. Qed.
+
 Definition reject_all : matcher := fun _ => false.
 Definition accept_all : matcher := fun _ => true.
 (* 300 rows rejected by the cached column of a Bc/Cd iterator *)
@@ -220,3 +289,13 @@ Print Assumptions nt_doc_erasure.
 Print Assumptions nt_term_depth.
 Print Assumptions nt_doc_depth.
 Print Assumptions nt_term_depth_needs_nesting.
+Print Assumptions vec_history_erasure.
+Print Assumptions vec_history_depth.
+Print Assumptions gspo_remove_spec.
+Print Assumptions spog_remove_spec.
+Print Assumptions remove_matching_spec.
+Print Assumptions retain_matching_spec.
+Print Assumptions every_copy_rec_refuted.
+Print Assumptions chain_depth_bounded.
+Print Assumptions chain_shape_indent_independent.
+Print Assumptions indent_guard_refuted.
